@@ -44,7 +44,7 @@ def tensor_arith(ctx, n):
     for k in range(n):
         et, cov, tr, T = rand_tensor(rng)
         opname = rng.choice(["add", "sub", "rsub", "radd", "mul", "div", "neg"])
-        other_kind = rng.choice(["tensor", "array", "list", "pyscalar", "npscalar", "row"])
+        other_kind = rng.choice(["tensor", "array", "list", "pyscalar", "npscalar", "row", "bigarray"])
         if opname in ("mul", "div"):
             other_kind = rng.choice(["pyscalar", "npscalar", "npscalar0d"])
         if opname == "neg":
@@ -54,6 +54,10 @@ def tensor_arith(ctx, n):
             oet = ET(shape, [Fraction(rng.randint(-4, 4)) for _ in range(int(np.prod(shape)))])
         elif other_kind == "row":
             oet = ET(shape[-1:], [Fraction(rng.randint(-4, 4)) for _ in range(shape[-1])])
+        elif other_kind == "bigarray":
+            # an array with one more (leading) axis: the result gains a collection axis, the index types shift
+            big = (rng.choice([2, 3]),) + tuple(shape)
+            oet = ET(big, [Fraction(rng.randint(-4, 4)) for _ in range(int(np.prod(big)))])
         else:
             c = Fraction(rng.choice([2, -1, 3, -4, 5]), rng.choice([1, 2]) if opname != "div" else 1)
             oet = ET((), [c])
@@ -96,7 +100,7 @@ def tensor_arith(ctx, n):
         ctx.count(f"arith:{opname}:{ok}:{via}")
         r = call_impl(f)
         exp = dec_tens(ans.split(" ")[1])
-        nf = len(et.shape) - tr
+        nf = len(et.shape) - tr + (1 if ok == "bigarray" else 0)
         good = r[0] == "ok" and isinstance(r[1], Tensor) and arr_close(exp, r[1].array) \
             and sorted(r[1]._covariant_indices) == [nf + c for c in cov] \
             and sorted(r[1]._contravariant_indices) == [nf + c for c in range(tr) if c not in cov]
